@@ -47,6 +47,10 @@ def _vols_for(M):
 
 def enumerate_cases(tier):
     nkey = 0
+    # totals above the format's per-record limit of 7158278 uL are fine as long as every step is below it
+    for dev in ("evo", "fluent"):
+        for M, v in ((2.5e6, 1e7), (7158278.0, 2 * 7158278.0), (9500.0, 114000.0), (5e6, 7158279.0)):
+            yield {"kind": "transfer", "M": M, "device": dev, "src_trough": False, "src": [0], "dst": [1], "vols": [v], "wash": 1, "partition_by": "auto"}
     for M in MS:
         yield {"kind": "grid", "M": M, "int_M": M in INT_MS}
     for M in (1, 7, 50, 950, 0.5, 33.3):
